@@ -1,0 +1,10 @@
+//go:build !verif
+
+package threadgroup
+
+// verifEvent is a verification hook; it does nothing unless the package is
+// built with -tags verif.
+func verifEvent(kind string, a, b int) {}
+
+// verifID identifies a thread group in recorded events.
+func verifID(tg *ThreadGroup) int { return 0 }
